@@ -159,7 +159,9 @@ def cli_scope(res, pid, rng, tier):
         if out.startswith("call"):
             f = dict(x.split("=", 1) for x in out.split(" ")[1:])
             bad = None
-            if f["undo"] == "true" and f["ip"] == "true":
+            if f["input"] == "-" or f["output"] == "-":
+                bad = "an empty input or output path reached the library"
+            elif f["undo"] == "true" and f["ip"] == "true":
                 bad = "undo together with anonymize reached the library"
             elif f["undo"] == "true" and f["salt"] == "none":
                 bad = "undo without salt reached the library"
@@ -195,7 +197,7 @@ def cli_scope(res, pid, rng, tier):
             fails.append({"kind": "an option behaves differently on the command line and in the config file", "argv": a1,
                           "config_file": c2, "outcome_cli": o1, "outcome_config": o2})
     # real runs: rejected combinations and the no-option case write nothing
-    for argv in (["-u"], ["-u", "-a", "-s", "x"], ["-d", "map"], ["-a", "--preserve-host-bits", "33"], []):
+    for argv in (["-u"], ["-u", "-a", "-s", "x"], ["-d", "map"], ["-a", "--preserve-host-bits", "33"], [], ["-u", "-p"], ["-d", "map", "-p", "-u", "-s", "q"]):
         d = tempfile.mkdtemp(prefix="ncverif_")
         try:
             os.makedirs(os.path.join(d, "in"))
